@@ -91,7 +91,7 @@ func c08ErrClass(err error) string {
 		return "size"
 	case has("key pair"):
 		return "keypair"
-	case has("public keys are mismatch"):
+	case has("public keys are mismatch"), has("x5c is not allowed for symmetric keys"):
 		return "cert-key"
 	case has("too large to fit"):
 		return "fixed-too-large"
